@@ -598,21 +598,45 @@ class C06(Property):
         cwl_definition = cwl_utils.parser.load_document_by_uri(doc)
         cwl_inputs = cwl_utils.parser.utils.load_inputfile_by_uri(version=cwl_definition.cwlVersion, path=job,
                                                                    loadingOptions=cwl_definition.loadingOptions)
-        # A whole CWL run also involves the scheduler, the job pipeline and the JavaScript engine. A stall is charged to the loop
-        # only if it is reproducible: the same document is run up to three times; one-off stalls are counted and noted, not reported
-        # as a violation of this property (a wrong loop wiring / wrong iteration tags hangs every time).
+        # A whole CWL run also involves the scheduler, the job pipeline and the JavaScript engine (node, 20 s time-out in cwl_utils: on a
+        # loaded machine an expression can time out, the job FAILS and the executor may then never finish). A stall or failure is
+        # charged to the loop only if (a) a step of the loop machinery itself failed, or (b) nothing failed and the stall is
+        # reproducible (three runs out of three). Failures of job steps are retried, then noted — never reported as a violation of C06.
+        def loop_step(st) -> bool:
+            return isinstance(st, (LoopOutputStep, LoopCombinatorStep, CWLLoopConditionalStep)) or "-loop-" in st.name
+
+        verdict = None
         for attempt in range(3):
             translator = CWLTranslator(context=context, name=f"c06cwl-{self._n}-{attempt}", output_directory=wdir, cwl_definition=cwl_definition,
                                        cwl_inputs=cwl_inputs, cwl_inputs_path=job, workflow_config=WorkflowConfig("w", cfg))
             wf = translator.translate()
             await wf.save(context.database)
-            hung, outputs, live = await sd.run_workflow(wf, StreamFlowExecutor(wf).run())
-            if not hung:
+            err, hung, outputs, live = None, False, None, []
+            try:
+                hung, outputs, live = await sd.run_workflow(wf, StreamFlowExecutor(wf).run())
+            except Exception as e:  # noqa: BLE001
+                err = e
+            failed = [st for st in wf.steps.values() if st.status == Status.FAILED]
+            if not hung and err is None:
+                verdict = "ok"
                 break
+            if failed and not any(loop_step(st) for st in failed):
+                verdict = "env"
+                ctx.count("cwl-job-failure(not charged)")
+                ctx.notes.append(f"CWL run attempt {attempt + 1}: job step(s) {[st.name for st in failed][:4]} FAILED outside the loop machinery "
+                                 f"({'stall' if hung else repr(err)[:120]}) on {case}")
+                continue
+            if err is not None:
+                raise err           # a step of the loop machinery failed
+            verdict = "hang"
             ctx.count("cwl-stall")
-            ctx.notes.append(f"CWL run stalled (attempt {attempt + 1}) on {case}: steps still running {live}")
-        if hung:
-            ctx.fail("cwl:hang", f"the CWL loop workflow made no progress for 180 s in 3 runs out of 3; steps still running: {live}", case)
+            ctx.notes.append(f"CWL run stalled (attempt {attempt + 1}) on {case}: steps still running {live}\n"
+                             + getattr(wf, "_sfv_stall_report", ""))
+        if verdict == "env":
+            ctx.extra["cwl_cases_not_evaluated"] = ctx.extra.get("cwl_cases_not_evaluated", 0) + 1
+            return
+        if verdict == "hang":
+            ctx.fail("cwl:hang", f"the CWL loop workflow made no progress for 180 s in 3 runs out of 3 (no failed step); steps still running: {live}", case)
             return
 
         def expected(s0: int):
